@@ -128,6 +128,18 @@ def regression_19d011f():
     return out
 
 
+def regression_3420ff7():
+    """`pieces` (exempt from decode_dict) nested far beyond the C recursion limit of repr(): with
+    validate=True read_stream must answer MetainfoError, and validate()/dump() of the torrent read with
+    validate=False too — never RecursionError (fix 3420ff7, ex-D08i: assert_type formatted repr(value))"""
+    out = []
+    for d in (1000, 1200, 1500, 1600, 2000, 3000, 5000, 20000):
+        for k in ('l', 'd', 'm'):
+            out.append(dict(kind='depth/regression-3420ff7', depth=d,
+                            x=b'd4:infod6:lengthi5e4:name1:a12:piece lengthi16384e6:pieces' + nest(k, d) + b'ee'))
+    return out
+
+
 def huge_depth_cases():
     return [dict(kind='depth/huge', x=with_entry(b'a', nest(k, d)), depth=d, modelled=False)
             for d in (20000, 100000) for k in ('l', 'd')] + \
